@@ -33,7 +33,8 @@ VOf(t) ==
     [] t.surf = "AllDocs"       -> [body |-> t.fl.include_docs, keys |-> t.fl.keys # "none"]
     [] t.surf = "Changes"       -> [body |-> t.fl.include_docs, filter |-> t.fl.filter, active |-> t.fl.active_only]
     [] t.surf = "GetAttachment" -> [meta |-> t.fl.meta]
-    [] t.surf = "BlipRev"       -> [delta |-> t.fl.delta]
+    [] t.surf = "BlipChanges"   -> [removals |-> t.fl.removals]
+    [] t.surf = "BlipRev"       -> [delta |-> t.fl.delta, removals |-> t.fl.removals]
     [] t.surf = "BlipGetAttachment" -> [during |-> t.fl.during]
     [] OTHER                    -> [x |-> 0]
 
